@@ -444,6 +444,71 @@ def rule_caller_data(eng, rep, rule="C19-3.caller-data-are-copied-before-any-wri
     rep.require_count(rule, "subscript stores inspected in solve (matcher alive)", len(stores), 2)
 
 
+def rule_restores_use_copies(eng, rep, rule="C19-4.a-row-saved-for-restoring-is-a-copy"):
+    """Save / overwrite / restore: `old = A[i]` ... `A[i] = new` ... `A[i] = old`.  If `old` is a plain basic-index view of `A` (no .copy(), no arithmetic) the
+    restore copies the row onto itself: the candidate written in between is never reverted.  In the rank-deficiency fallback of the coordinate initialiser
+    that is what keeps the result independent of the random selectors (exception N1 of C19-1): only the rank-raising change survives.  Decided for every
+    function of the package: a store `A[i] = v` where every reaching definition of `v` is the view `A[i]` of the same array and index text, with a store to that
+    region on a path in between."""
+    n = 0
+    for fi in eng.prog.functions.values():
+        if fi.is_lambda:
+            continue
+        cands = []
+        for node in eng.prog.own_nodes(fi):
+            if isinstance(node, ast.Assign) and len(node.targets) == 1 and isinstance(node.targets[0], ast.Subscript) and isinstance(node.value, ast.Name):
+                cands.append(node)
+        if not cands:
+            continue
+        cfg = eng.cfg(fi)
+        for st in cands:
+            tgt = st.targets[0]
+            try:
+                defs = cfg.defs_reaching(st, st.value.id)
+            except Exception:
+                continue
+            if not defs:
+                continue
+            kinds = []
+            for dn in defs:
+                ds = cfg.ast_of(dn)
+                if isinstance(ds, ast.Assign) and len(ds.targets) == 1 and isinstance(ds.targets[0], ast.Name) and isinstance(ds.value, ast.Subscript) \
+                        and ekey(ds.value) == ekey(tgt) and not any(isinstance(x, (ast.List, ast.Compare)) for x in ast.walk(ds.value.slice)):
+                    kinds.append(("view", dn))
+                elif isinstance(ds, ast.Assign) and isinstance(ds.value, ast.Call) and isinstance(ds.value.func, ast.Attribute) and ds.value.func.attr == "copy" \
+                        and isinstance(ds.value.func.value, ast.Subscript) and ekey(ds.value.func.value) == ekey(tgt):
+                    kinds.append(("copy", dn))
+                else:
+                    kinds.append(("other", dn))
+            if not any(k in ("view", "copy") for (k, _d) in kinds):
+                continue
+            n += 1
+            site = eng.where(fi, st)
+            views = [d for (k, d) in kinds if k == "view"]
+            if not views:
+                rep.ok(rule, site, "`%s` is restored from a copy taken before the row was overwritten" % short(tgt))
+                continue
+            # is the region written between the view's creation and the restore?
+            me = cfg.cfg_node(st)
+            between = False
+            for m, d in cfg.g.nodes(data=True):
+                ms = d.get("ast")
+                if d.get("kind") != "stmt" or m == me or not isinstance(ms, (ast.Assign, ast.AugAssign)):
+                    continue
+                tg = ms.targets if isinstance(ms, ast.Assign) else [ms.target]
+                if not any(isinstance(t, ast.Subscript) and ekey(t.value) == ekey(tgt.value) for t in tg):
+                    continue
+                if any(cfg.path_avoiding(v, m, []) is not None for v in views) and cfg.path_avoiding(m, me, []) is not None:
+                    between = True
+            if between:
+                rep.bad(rule, site, "%s|restore-from-a-view|%s" % (fi.fid, short(tgt, 30)),
+                        "`%s = %s` restores the row from `%s`, which is a view of that very row (no copy): the value written in between is kept, the restore does nothing"
+                        % (short(tgt), st.value.id, st.value.id))
+            else:
+                rep.ok(rule, site, "`%s` is written back from a view with no store in between (no-op)" % short(tgt), nontrivial=False)
+    rep.require_count(rule, "save / restore pairs on array rows", n, 3)
+
+
 def run(eng, rep):
     rep.explain("C19: guarded taint (T13) -- every call of numpy.random.* reachable from solve is control dependent, in its own function or at a call site on every call "
                 "path, on a test that establishes an option from the frozen documented-random table or the growing phase (one checked exception, N1); inventory (T1) "
@@ -456,3 +521,4 @@ def run(eng, rep):
     rep.guarded(rule_random_defaults, eng, rep)
     rep.guarded(rule_no_hidden_state, eng, rep)
     rep.guarded(rule_caller_data, eng, rep)
+    rep.guarded(rule_restores_use_copies, eng, rep)
